@@ -143,10 +143,10 @@ def replay(chk, path):
     st, ref, _ = e2e.run_ref(b, plan, script, d)
     st2, out, _ = e2e.build_and_run(w2c2, b, plan, script, d, cflags=['-O1'])
     if st != 'ok' or st2 != 'ok':
-        chk.violation('C01:replay:%s' % st2, str(out)[:1000])
+        chk.violation('%s:replay:%s' % (chk.pid, st2), str(out)[:1000])
         return
     for step, kind, ra, rb, i in diff.compare(ref, out, {}):
-        chk.violation('C01:replay:%s' % kind, 'line %d: reference "%s" compiled "%s"' % (i, ref[i], out[i]))
+        chk.violation('%s:replay:%s' % (chk.pid, kind), 'line %d: reference "%s" compiled "%s"' % (i, ref[i], out[i]))
     chk.ev(len(out))
     chk.distinct('a')
     chk.distinct('b')
